@@ -179,7 +179,13 @@ def oracle_expr_attrs(rec):
             for kind in ('binary_expression', t['opkind']):
                 n = find(idx, kind, t)
                 if not n:
-                    bad.append(('binary-missing', kind, t['line'], t['text']))
+                    # D19 (listed for C03): identical binary expressions of one file share an identity, the later
+                    # occurrence overwrites the earlier; its attributes are then checked on the survivor
+                    twins = [u for u in rec['case'].get('truth', []) if u['kind'] == 'binary' and u['text'] == t['text'] and u['line'] != t['line']]
+                    if twins:
+                        cnt['binary_lost_to_identity_collision'] += 1
+                    else:
+                        bad.append(('binary-missing', kind, t['line'], t['text']))
                     continue
                 cnt[k] += 1
                 got = tuple(toks(n['bin']))
